@@ -121,6 +121,26 @@ func MonCancelStops(a *Analysis, p int64, snapAtCancel State, async bool) []Viol
 		if running != nil && running.RefErrAt >= 0 && len(running.SetRules) > 0 && strings.Contains(res.Err.Error(), running.SetRules[0]) {
 			return vs
 		}
+		// the cycle budget may be exhausted in the very cycle in which the context ended: after the
+		// check in front of the last condition evaluation the engine has no reason to look at the
+		// context again before it returns the cycle-limit error. That is the case exactly when at
+		// most one evaluation (and no new cycle, no execution) was reported after the instant p.
+		if a.limitDue() {
+			later := 0
+			for _, e := range res.Events {
+				if e.L == 0 && e.Seq > p {
+					switch e.Kind {
+					case "eval":
+						later++
+					case "begin", "exec":
+						later += 2
+					}
+				}
+			}
+			if later <= 1 {
+				return vs
+			}
+		}
 		vs = append(vs, Violation{"CancelStops", 0, "", fmt.Sprintf("Execute returned %q, which is not the context's error %v", trunc(res.Err.Error(), 120), ctxErr)})
 	}
 	return vs
